@@ -3,14 +3,14 @@ from runner import Job
 
 ASSUME = ['clang-14 -O1 lowering preserves semantics; llsym implements the IR semantics it uses (incl. the bzhi inline asm and AVX2 compare/movemask)',
           'operands are objects of exactly `len` bytes; in the production path the rest of their page (at most 64 bytes) is readable foreign memory whose contents are unconstrained and must not influence the result; the next page is unmapped',
-          'in the sanitizer path (-DSONIC_USE_SANITIZE) nothing beyond the operands is readable']
+          'in the sanitizer path (-D__SANITIZE_ADDRESS__ (what an ASan build defines; selects SONIC_USE_SANITIZE in every header)) nothing beyond the operands is readable']
 
 
 def jobs(tier):
     q = tier == 'quick'; J = []
     top = 100 if q else 160
     step = 8 if q else 4
-    for cfg, defs, noslack, tag in (('haswell', (), 0, 'prod'), ('haswell', ('SONIC_USE_SANITIZE',), 1, 'san'), ('westmere', (), 1, 'sse')):
+    for cfg, defs, noslack, tag in (('haswell', (), 0, 'prod'), ('haswell', ('__SANITIZE_ADDRESS__',), 1, 'san'), ('westmere', (), 1, 'sse')):
         for mode in (0, 1):
             for lo in range(0, top + 1, step):
                 hi = min(top, lo + step - 1)
